@@ -31,7 +31,10 @@ DECL = {
 }
 CHANNELS = {"none": ["text", "bytes", "stringio", "bytesio", "rawstream", "bufstream", "textstream"],
             "local": ["path", "fileurl", "text@local", "bytesio@local"],
-            "remote": ["http", "text@remote", "bytes@remote", "bytesio@remote"]}
+            "remote": ["http", "text@remote", "bytes@remote", "bytesio@remote", "text@ftps", "bytes@s3", "bytesio@https"]}
+# "x@ftps" / "x@s3" / "x@https": the base URL has another non-local scheme - Defuse.tla's locality "remote" is
+# EVERY scheme that is not local (no scheme, file, a drive letter), not a list of well-known ones
+SCHEME_BASE = {"ftps": "ftps://verif.invalid/base/", "s3": "s3://bucket/base/", "https": "https://verif.invalid/base/"}
 # channel "x@local" / "x@remote": data supplied with a base_url of that class (the data has no URL of its own: its
 # locality is that of the base URL)
 
@@ -101,6 +104,8 @@ def base_for(channel, tmp):
         return "file://" + tmp + "/"
     if channel.endswith("@remote"):
         return c12.REMOTE + "/base/"
+    if "@" in channel:
+        return SCHEME_BASE[channel.split("@")[1]]
     return None
 
 
